@@ -242,7 +242,10 @@ def run_case(case, ctx):
     rng = ctx.rng("c04", case["family"], case["i"])
     with warnings.catch_warnings():
         warnings.simplefilter("ignore")
-        cfg = catalogue.GENERATORS[case["family"]](rng, ctx.tier)
+        if case["family"] == "aggregation":
+            cfg = catalogue.gen_aggregation(rng, ctx.tier, damped_history=True)
+        else:
+            cfg = catalogue.GENERATORS[case["family"]](rng, ctx.tier)
         mod = cfg.build()
         ins0 = [digest(s.state) for s in mod.sig_in]
         mod.response()
